@@ -375,6 +375,16 @@ LayerForward(A) ==
             out == DenseOf(Y.sh, LAMBDA ix : GAdd(At(Y, ix), At(B, SubSeq(ix, nb + 1, nb + d)))) IN
         /\ case' = [op |-> "layer", x |-> A, bsh |-> bsh]
         /\ res' = DenseRes(out, "must")
+\* the same mode twice in the list: the factors are applied one after the other (a square one, then a rectangular one)
+MProdRep(x) ==
+    /\ "mprod" \in OPS /\ x.k = "tt"
+    /\ \E p \in 1..Len(x.I) :
+        LET n == x.I[p]
+            Q1 == DenseFill(<<n, n>>, x.f + 20, x.cx)
+            Q2 == DenseFill(<<(n % 3) + 1, n>>, x.f + 21, x.cx)
+            D == DMProd1(DMProd1(Full(Mk(x)), Q1, p), Q2, p) IN
+        /\ case' = [op |-> "mprod_rep", x |-> x, p |-> p]
+        /\ res' = ValRes("tt", <<>>, D.sh, D, "must") @@ [R |-> x.R]
 
 AlgNext(x) ==
     \/ \E op \in {"add", "sub", "mul"} : BinTT(op, x) \/ BinMM(op, x)
@@ -389,7 +399,7 @@ AlgNext(x) ==
     \/ \E op \in {"norm2", "norm", "sum_all", "sum_axes"} : Reductions(op, x)
     \/ Dot(x) \/ DotAxes(x) \/ Bilinear(x)
     \/ IndexT(x) \/ IndexM(x) \/ ApplyMask(x)
-    \/ Cat(x) \/ Cat3(x) \/ PadT(x) \/ PadM(x) \/ MProd(x)
+    \/ Cat(x) \/ Cat3(x) \/ PadT(x) \/ PadM(x) \/ MProd(x) \/ MProdRep(x)
     \/ \E op \in {"save_load", "clone_c", "detach", "to_dtype", "cpu", "numpy"} : Copies(op, x)
     \/ LayerForward(x)
 
